@@ -4,6 +4,13 @@ import RadicaleModel.Shell
 open Lean Radicale
 namespace Driver
 
+def hookTok (v : Json) : Shell.HookTok :=
+  match v with
+  | Json.str "user" => .user
+  | Json.str "path" => .path
+  | Json.str "cwd" => .cwd
+  | v => .lit (asStr v)
+
 def handleQuote (j : Json) : Json :=
   let s := getStr j "s"
   match getS j "op" with
@@ -23,6 +30,14 @@ def handleQuote (j : Json) : Json :=
   | "shwords" => match Shell.words s with
       | some ws => obj [("r", Json.arr (ws.map jStr).toArray)]
       | none => obj [("r", Json.null)]
+  | "hookcmd" =>
+      let ts := (getArr j "tmpl").map hookTok
+      let e : Shell.HookEnv := { user := getStr j "user", path := getStr j "path", folder := getStr j "folder", root := getStr j "root" }
+      let cmd := Shell.hookCommand ts e
+      obj [("cmd", jStr cmd), ("values", Json.arr (ts.map (fun t => jStr (t.value e))).toArray),
+           ("words", match Shell.words cmd with
+              | some ws => Json.arr (ws.map jStr).toArray
+              | none => Json.null)]
   | "token" => obj [("r", Json.bool (Path.checkTokenName s))]
   | _ => obj [("error", Json.str "bad-op")]
 
